@@ -9,7 +9,12 @@ MCCombos == {<<"files", Fl(FALSE, FALSE, FALSE)>>, <<"files", Fl(FALSE, TRUE, FA
              <<"modified", Fl(FALSE, FALSE, FALSE)>>,
              <<"files", FlU(FALSE, FALSE, FALSE)>>, <<"files", FlU(TRUE, FALSE, FALSE)>>,
              <<"files", FlU(TRUE, FALSE, TRUE)>>, <<"json", FlU(FALSE, FALSE, FALSE)>>,
-             <<"stdout", FlU(FALSE, FALSE, FALSE)>>}
+             <<"stdout", FlU(FALSE, FALSE, FALSE)>>,
+             \* --backup (make_backup) next to every mode that must not write
+             <<"files", Fl(TRUE, TRUE, FALSE)>>, <<"files", Fl(TRUE, TRUE, TRUE)>>,
+             <<"stdout", Fl(FALSE, TRUE, FALSE)>>, <<"json", Fl(FALSE, TRUE, FALSE)>>,
+             <<"checkstyle", Fl(FALSE, TRUE, FALSE)>>, <<"modified", Fl(FALSE, TRUE, FALSE)>>,
+             <<"files", Fl(FALSE, TRUE, TRUE)>>}
 MCCombosSmall == {<<"files", Fl(FALSE, FALSE, FALSE)>>, <<"files", Fl(FALSE, TRUE, FALSE)>>,
                   <<"files", Fl(TRUE, FALSE, FALSE)>>, <<"json", Fl(FALSE, FALSE, FALSE)>>}
 =============================================================================
